@@ -233,6 +233,10 @@ func init() {
 			return tFalse
 		},
 		"vNative": func(m *Machine, fr *frame, fn *ssa.Function, args []Value) Value { return tFalse },
+		"vTimerLateMax": func(m *Machine, fr *frame, fn *ssa.Function, args []Value) Value {
+			m.ghost["timerlate"] = args[0].(*Term)
+			return nil
+		},
 		"vPoisoned": func(m *Machine, fr *frame, fn *ssa.Function, args []Value) Value {
 			_, ok := m.ghost["poison"]
 			return mkBool(ok)
@@ -1273,5 +1277,103 @@ func registerMisc() {
 		obj := new(Value)
 		*obj = zero(deref(pt))
 		return obj
+	}
+}
+
+// ---------- strconv integer formatting (stub contract: exact decimal representation) ----------
+
+// decimalBytes returns the base-10 representation of t. For a symbolic t it forks on the sign
+// and the number of digits and introduces one digit variable per position, constrained by
+// sum(digit_j * 10^(d-1-j)) == |t| and no leading zero.
+func (m *Machine) decimalBytes(t *Term) []*Term {
+	if t.IsConst() {
+		s := t.iv.String()
+		out := make([]*Term, len(s))
+		for i := range out {
+			out[i] = byteTerm(s[i])
+		}
+		return out
+	}
+	var out []*Term
+	abs := t
+	if t.lo == nil || t.lo.Sign() < 0 {
+		if m.branch(tCmp("<", t, mkInt64(0))) {
+			out = append(out, byteTerm('-'))
+			abs = tNeg(t)
+			if t.lo != nil {
+				abs = boundTerm(abs, 1, new(big.Int).Neg(t.lo).Int64())
+			}
+		} else if t.hi != nil {
+			abs = boundTerm(t, 0, t.hi.Int64())
+		}
+	}
+	// number of digits
+	d := 1
+	p := big.NewInt(10)
+	for ; d < 20; d++ {
+		if abs.hi != nil && abs.hi.Cmp(p) < 0 {
+			break
+		}
+		if m.branch(tCmp("<", abs, mkInt(p))) {
+			break
+		}
+		p = new(big.Int).Mul(p, big.NewInt(10))
+	}
+	digits := make([]*Term, d)
+	sum := mkInt64(0)
+	w := new(big.Int).Exp(big.NewInt(10), big.NewInt(int64(d-1)), nil)
+	for j := 0; j < d; j++ {
+		lo := int64('0')
+		if j == 0 && d > 1 {
+			lo = '1'
+		}
+		digits[j] = m.freshVar("dig", SInt, big.NewInt(lo), big.NewInt('9'))
+		sum = tAdd(sum, tMul(mkInt(w), tSub(digits[j], mkInt64('0'))))
+		w = new(big.Int).Div(w, big.NewInt(10))
+	}
+	m.assertPC(tEq(sum, abs))
+	return append(out, digits...)
+}
+
+func init() {
+	I := intrinsics
+	appendDec := func(m *Machine, dst sliceV, t *Term, site *ssa.Function) Value {
+		bs := m.decimalBytes(t)
+		a := make([]Value, dst.len+len(bs), dst.len+len(bs)+8)
+		copy(a, dst.elems())
+		for i, b := range bs {
+			a[dst.len+i] = b
+		}
+		if dst.len+len(bs) <= dst.cap {
+			for i, b := range bs {
+				dst.a[dst.off+dst.len+i] = b
+			}
+			dst.len += len(bs)
+			return dst
+		}
+		full := a[:cap(a)]
+		for i := len(a); i < len(full); i++ {
+			full[i] = byteTerm(0)
+		}
+		return sliceV{a: full, len: len(a), cap: len(full)}
+	}
+	I["strconv.AppendInt"] = func(m *Machine, fr *frame, fn *ssa.Function, a []Value) Value {
+		base := a[2].(*Term)
+		if !base.IsConst() || base.Int64() != 10 {
+			m.unsupported("strconv.AppendInt with base != 10")
+		}
+		return appendDec(m, a[0].(sliceV), a[1].(*Term), fn)
+	}
+	I["strconv.AppendUint"] = I["strconv.AppendInt"]
+	I["strconv.FormatInt"] = func(m *Machine, fr *frame, fn *ssa.Function, a []Value) Value {
+		base := a[1].(*Term)
+		if !base.IsConst() || base.Int64() != 10 {
+			m.unsupported("strconv.FormatInt with base != 10")
+		}
+		return mkStrTerms(m.decimalBytes(a[0].(*Term)))
+	}
+	I["strconv.FormatUint"] = I["strconv.FormatInt"]
+	I["strconv.Itoa"] = func(m *Machine, fr *frame, fn *ssa.Function, a []Value) Value {
+		return mkStrTerms(m.decimalBytes(a[0].(*Term)))
 	}
 }
